@@ -263,6 +263,10 @@ func (o *Operations) Update(
 			}
 		} else {
 			hdr.PAXRecords[records.STFSRecordReplacesContent] = records.STFSRecordReplacesContentFalse
+			if _, ok := hdr.PAXRecords[records.STFSRecordUncompressedSize]; !ok {
+				// An entry that stems from a foreign archive has no size record yet; without it the index would take the size from this record
+				hdr.PAXRecords[records.STFSRecordUncompressedSize] = strconv.Itoa(int(hdr.Size))
+			}
 			hdr.Size = 0 // Don't try to seek after the record
 
 			if o.onHeader != nil {
